@@ -1,7 +1,7 @@
 (* C01 — Two endpoints built on the library interoperate, even across transport loss.
    Statements only.  Nothing else may be added to this file. *)
 From MQ Require Import Base.Prelude Alloc.Alloc Alloc.AllocProofs Framing.Framing Framing.FramingProofs Conn.Types Conn.ConnRecord Conn.Step
-                       Corr.ConnTrace Conn.Scope Conn.Session Conn.IdsQuota Conn.Own Conn.OwnFrame Conn.OwnStep Conn.Run Conn.PairQos Conn.PairQos0 Conn.PairQos5 Conn.PairSeq Conn.PairSeq5 Conn.PairConc Conn.PairBi Conn.PairConc5 Conn.PairBi5 Conn.PairHandshake5 Conn.PairHandshake311 Conn.PairConcIds Conn.PairConcIds5 Conn.PairBiIds Conn.PairBiIds5 Conn.PairQuiescence Conn.PairManual Conn.PairManual5 Conn.PairManualSeq Conn.PairManualSeq5 Conn.PairHandshakeSeq Conn.SessInv Conn.PairLoss Conn.PairLossAcc Conn.PairLossS Conn.PairHandshakeP Conn.PairLossIds Conn.PairLossSIds Conn.PairSeqMixed Conn.PairSeqMixedFresh Conn.PairSeqMixed2 Conn.PairSeqMixed5.
+                       Corr.ConnTrace Conn.Scope Conn.Session Conn.IdsQuota Conn.Own Conn.OwnFrame Conn.OwnStep Conn.Run Conn.PairQos Conn.PairQos0 Conn.PairQos5 Conn.PairSeq Conn.PairSeq5 Conn.PairConc Conn.PairBi Conn.PairConc5 Conn.PairBi5 Conn.PairHandshake5 Conn.PairHandshake311 Conn.PairConcIds Conn.PairConcIds5 Conn.PairBiIds Conn.PairBiIds5 Conn.PairQuiescence Conn.PairManual Conn.PairManual5 Conn.PairManualSeq Conn.PairManualSeq5 Conn.PairHandshakeSeq Conn.SessInv Conn.PairLoss Conn.PairLossAcc Conn.PairLossS Conn.PairHandshakeP Conn.PairLossIds Conn.PairLossSIds Conn.PairSeqMixed Conn.PairSeqMixedFresh Conn.PairSeqMixed2 Conn.PairSeqMixed5 Conn.PairBi5 Conn.PairSeqMixed25 Conn.PairSeqMixedFresh5.
 
 (* what the pair property rests on, each proved for ALL states of one endpoint:
    (i) delivery in any fragmentation is the same byte stream (C09) *)
@@ -264,6 +264,41 @@ Theorem C01_pair_qos0_step_v5 : forall gs gr cs cr p, pair_inv5 gs gr cs cr -> v
   end.
 Proof. exact exchange0_5_ok. Qed.
 Print Assumptions C01_pair_qos0_step_v5.
+
+(* v5.0, BOTH SIDES PUBLISHING, any mix of QoS 0 / 1 / 2 (Conn/PairSeqMixed25.v): [pair_inv52] is [pair_inv5] in both
+   directions - all four Receive Maximum accounts at zero between exchanges *)
+Theorem C01_two_way_mixed_sequence_exactly_once_v5 : forall gA gB l a b,
+  pair_inv52 gA gB a b -> Forall (fun i => v5_any (item_pkt i)) l ->
+  match run_mixed52 gA gB a b l with
+  | Done2 a' b' dB dA => dB = fromA l /\ dA = fromB l /\ pair_inv52 gA gB a' b'
+  | AppPre2 => True
+  | Fail2 => False
+  end.
+Proof. exact run_mixed52_ok. Qed.
+Print Assumptions C01_two_way_mixed_sequence_exactly_once_v5.
+
+(* ... end to end from fresh v5.0 objects (Conn/PairSeqMixedFresh5.v) *)
+Theorem C01_fresh_v5_two_way_mixed_sequence : forall gA gB cn ca l,
+  1 <= g_idmax gA -> 1 <= g_idmax gB -> role_client_ok gA = true -> role_server_ok gB = true ->
+  k_type cn = T_CONNECT -> k_ver cn = V50 -> k_flag cn = true -> k_tam cn = None -> k_rm cn <> Some 0 -> k_size cn <= MQTT_PACKET_SIZE_NO_LIMIT ->
+  k_type ca = T_CONNACK -> k_ver ca = V50 -> k_rc ca = 0 -> k_flag ca = false -> k_tam ca = None -> k_rm ca <> Some 0 -> k_mps ca <> Some 0 ->
+  k_size ca <= limit_after (k_mps cn) MQTT_PACKET_SIZE_NO_LIMIT ->
+  2 + g_idw gA <= limit_after (k_mps ca) MQTT_PACKET_SIZE_NO_LIMIT -> 2 + g_idw gB <= limit_after (k_mps cn) MQTT_PACKET_SIZE_NO_LIMIT ->
+  Forall (fun i => v5_any (item_pkt i)) l ->
+  let A0 := set_auto_pub (conn_new gA V50) true in
+  let B0 := set_auto_pub (conn_new gB V50) true in
+  exists A1 e1 B1 e2 B2 e3 A2 e4,
+    step gA A0 (OSend cn) = Ok (A1, e1, []) /\ deliver gB B0 cn = Ok (B1, e2) /\
+    step gB B1 (OSend ca) = Ok (B2, e3, []) /\ deliver gA A1 ca = Ok (A2, e4) /\
+    errors e1 = [] /\ errors e2 = [] /\ errors e3 = [] /\ errors e4 = [] /\
+    match run_mixed52 gA gB A2 B2 l with
+    | Done2 A' B' dB dA => dB = fromA l /\ dA = fromB l /\ pair_inv52 gA gB A' B' /\
+                           vacancy A' = c_send_max A' /\ vacancy B' = c_send_max B' /\ c_publish_recv A' = [] /\ c_publish_recv B' = []
+    | AppPre2 => True
+    | Fail2 => False
+    end.
+Proof. exact fresh_v5_two_way_mixed_sequence. Qed.
+Print Assumptions C01_fresh_v5_two_way_mixed_sequence.
 
 (* SEVERAL EXCHANGES IN FLIGHT (v3.1.1, automatic responses, intact FIFO links): the system is two endpoints and two
    queues; an action is "the application publishes a QoS 1/2 message" (skipped when its own precondition fails: identifier
@@ -1337,6 +1372,29 @@ Example C01_pair_mixed_sequence_v5_nonvacuous :
       match run_mixed5 gs gr cs cr ps with
       | Done cs' cr' d => d = ps /\ c_qos2 cr' = [] /\ c_store cs' = [] /\ a_pool (c_pid cs') = [(1, 65535)] /\
                           c_send_count cs' = 0 /\ c_publish_recv cr' = []
+      | _ => False
+      end
+  | _, _ => False
+  end.
+Proof. vm_compute. repeat split; reflexivity. Qed.
+
+(* ... and the v5.0 two-way one: Receive Maximum 2 towards the server, 3 towards the client *)
+Example C01_two_way_mixed_sequence_v5_nonvacuous :
+  let gs := mkCfg RClient 65535 2 in
+  let gr := mkCfg RServer 65535 2 in
+  let cn := mkPkt 1 V50 0 0 false false [] None 0 0 24 false 0 true 0 None (Some 3) (Some 100) None None in
+  let ca := mkPkt 2 V50 0 0 false false [] None 0 0 11 true 0 false 0 None (Some 2) (Some 50) None None in
+  let ops_s := [OSetAutoPub true; OSend cn; ORecv [32;9;0;0;6;33;0;2;39;0;0;0;50] (PROk ca)] in
+  let ops_r := [OSetAutoPub true; ORecv [16;13;0;4;77;81;84;84;5;2;0;0;0;0;0] (PROk cn); OSend ca] in
+  let pb := fun id q pay => mkPkt 3 V50 id q false false [116] None pay 0 (8 + pay) false 0 false 0 None None None None None in
+  let p0 := fun pay => mkPkt 3 V50 0 0 false false [116] None pay 0 (6 + pay) false 0 false 0 None None None None None in
+  let l := [FromA (p0 2); FromB (pb 1 2 0); FromA (pb 1 2 3); FromB (p0 0); FromB (pb 1 1 4); FromA (pb 1 1 1); FromA (p0 1)] in
+  match run_state gs (conn_new gs V50) ops_s, run_state gr (conn_new gr V50) ops_r with
+  | Some a, Some b =>
+      match run_mixed52 gs gr a b l with
+      | Done2 a' b' dB dA => dB = [p0 2; pb 1 2 3; pb 1 1 1; p0 1] /\ dA = [pb 1 2 0; p0 0; pb 1 1 4] /\
+                             vacancy a' = Some 2 /\ vacancy b' = Some 3 /\ c_publish_recv a' = [] /\ c_publish_recv b' = [] /\
+                             c_store a' = [] /\ c_store b' = [] /\ a_pool (c_pid a') = [(1, 65535)] /\ a_pool (c_pid b') = [(1, 65535)]
       | _ => False
       end
   | _, _ => False
